@@ -3,7 +3,7 @@
 TIER=${1:-quick}; PAT=${2:-}
 cd /verif
 git -C /repo diff --quiet || { echo "/repo has local changes, refusing"; exit 2; }
-for d in seeded/*${PAT}*/; do
+for d in /verif/seeded/*${PAT}*/; do
   id=$(basename $d); prop=${id%%-*}
   grep -q "\"$prop\"" <(bin/simdvet list | sed 's/ .*//;s/^/"/;s/$/"/') || { echo "$id: no check for $prop yet"; continue; }
   if ! git -C /repo apply --check $d/patch.diff 2>/dev/null; then
